@@ -340,6 +340,7 @@ class Interp(object):
         self.depth = 0
         self.max_depth = max_depth
         self.unroll_limit = 64
+        self.exc_stack = []      # exceptions being handled (for bare `raise`)
         self.call_log = []       # qualnames of real functions interpreted (evidence)
         self.native_ok = set()   # extra callables that may always be called natively
         # progress output is dropped by the symbolic semantics (DESIGN.md section 7)
@@ -705,7 +706,11 @@ class Interp(object):
                     if match:
                         if h.name:
                             env.store(h.name, e)
-                        self.exec_block(h.body, env)
+                        self.exc_stack.append(e)
+                        try:
+                            self.exec_block(h.body, env)
+                        finally:
+                            self.exc_stack.pop()
                         break
                 else:
                     raise
@@ -717,7 +722,9 @@ class Interp(object):
 
     def x_Raise(self, s, env):
         if s.exc is None:
-            raise Undecided("bare raise")
+            if not self.exc_stack:
+                raise RuntimeError("No active exception to reraise")
+            raise self.exc_stack[-1]
         e = self.eval(s.exc, env)
         if isinstance(e, type):
             e = e()
